@@ -14,7 +14,7 @@
 //   reinit_fresh     a fresh visitor initialised with the same arguments behaves identically (bit-identical values,
 //                    same exception or none)
 //   lambda_vs_eval   eval_double of the substituted expression agrees (condition-scaled tolerance)
-#include "evalfam.h"
+#include "evalfam.h" // (evalfam.h rev 2: the build stamp only hashes this file)
 #include <symengine/lambda_double.h>
 #include <symengine/real_double.h>
 
